@@ -466,14 +466,20 @@ POISON_FNS = set()  # functions verified (on every run) to store `true` into the
 def find_poison_fns(facts):
     POISON_FNS.clear()
     _facts_for_poison[0] = facts
-    for cand in ("nomt::store::Store::poison",):
-        body = facts.bodies.get(cand)
-        if body is None:
-            continue
-        pb = _poison_blocks(body)
-        rets = body.return_blocks()
-        if pb and all(any(body.dominates(p, r) for p in pb) for r in rets):
-            POISON_FNS.add(cand)
+    # functions of the store that set the flag on every path (fixpoint: `Store::poison` may delegate to `Shared::poison`)
+    cands = [i for i, b in facts.bodies.items() if b.crate == "nomt" and "::store::" in i and b.kind != "Closure" and b.n <= 40 and "::tests::" not in i]
+    changed = True
+    while changed:
+        changed = False
+        for cand in cands:
+            if cand in POISON_FNS:
+                continue
+            body = facts.bodies[cand]
+            pb = _poison_blocks(body)
+            rets = body.return_blocks()
+            if pb and rets and all(any(body.dominates(p, r) for p in pb) for r in rets):
+                POISON_FNS.add(cand)
+                changed = True
 
 
 def _poison_blocks(body):
